@@ -1335,4 +1335,717 @@ theorem matches_eq_wildmatch (pat : Pattern) (hwf : pat.WellFormed) (value : Byt
         split <;> simp
 
 
+
+/-! ### one star: the loop behind it, both sides -/
+
+theorem lc42 (m : Mode) : lc m 42 = 42 := ((lc_special m 42).1).mpr rfl
+
+theorem go_star1 {m : Mode} {fuel d : Nat} {pattern text : Bytes} {i ti : Nat} {c tc : UInt8} {rest' tr : Bytes}
+    (h0 : lc m c ≠ 42) (hns : ¬ (m.noMatchSlash = true ∧ lc m c = 47)) :
+    go m (fuel + 1) d pattern text ⟨i, 42 :: c :: rest'⟩ ⟨ti, tc :: tr⟩ =
+      starLoop m (fun k => recCall m fuel d pattern text (i + 1) k) (lc m c) (!m.noMatchSlash)
+        (tr.length + 1) ti (lc m tc) ⟨ti + 1, tr⟩ := by
+  conv => lhs; unfold go
+  simp [Iter.next, STAR, BACKSLASH, SLASH, lc42, h0, recCall]
+  rw [if_neg hns]
+  congr 1
+
+theorem go_star1_nil {m : Mode} {fuel d : Nat} {pattern text : Bytes} {i ti : Nat} {c : UInt8} {rest' : Bytes}
+    (h0 : lc m c ≠ 42) (hns : ¬ (m.noMatchSlash = true ∧ lc m c = 47)) :
+    go m (fuel + 1) d pattern text ⟨i, 42 :: c :: rest'⟩ ⟨ti, []⟩ =
+      starLoop m (fun k => recCall m fuel d pattern text (i + 1) k) (lc m c) (!m.noMatchSlash)
+        1 text.length 0 ⟨ti, []⟩ := by
+  conv => lhs; unfold go
+  simp [Iter.next, STAR, BACKSLASH, SLASH, lc42, h0, recCall]
+  rw [if_neg hns]
+  congr 1
+
+theorem go_star1_slash {m : Mode} {fuel d : Nat} {pattern text : Bytes} {i ti : Nat} {c tc : UInt8} {rest' tr : Bytes}
+    (hns : m.noMatchSlash = true ∧ lc m c = 47) :
+    go m (fuel + 1) d pattern text ⟨i, 42 :: c :: rest'⟩ ⟨ti, tc :: tr⟩ =
+      match sliceFrom text ti with
+      | none => .panic
+      | some s =>
+        match findSlash s with
+        | some dist => go m fuel d pattern text ⟨i + 2, rest'⟩ ((Iter.mk (ti + 1) tr).advance dist)
+        | none => .noMatch := by
+  conv => lhs; unfold go
+  have h0 : lc m c ≠ 42 := by rw [hns.2]; decide
+  simp [Iter.next, STAR, BACKSLASH, SLASH, lc42, h0, hns.1, hns.2]
+  generalize sliceFrom text ti = x
+  cases x with
+  | none => rfl
+  | some s => simp only []; generalize findSlash s = y; cases y <;> rfl
+
+theorem go_star1_slash_nil {m : Mode} {fuel d : Nat} {pattern text : Bytes} {i ti : Nat} {c : UInt8} {rest' : Bytes}
+    (hns : m.noMatchSlash = true ∧ lc m c = 47) :
+    go m (fuel + 1) d pattern text ⟨i, 42 :: c :: rest'⟩ ⟨ti, []⟩ = .noMatch := by
+  conv => lhs; unfold go
+  have h0 : lc m c ≠ 42 := by rw [hns.2]; decide
+  simp [Iter.next, STAR, BACKSLASH, SLASH, lc42, h0, hns.1, hns.2, sliceFrom, findSlash]
+
+theorem go_star_end' {m : Mode} {fuel d : Nat} {pattern text : Bytes} {i ti : Nat} {ts : Bytes} :
+    go m (fuel + 1) d pattern text ⟨i, [42]⟩ ⟨ti, ts⟩ =
+      match sliceFrom text (if ts.isEmpty then text.length else ti) with
+      | none => .panic
+      | some s => if m.noMatchSlash && s.contains 47 then .noMatch else .matched := by
+  conv => lhs; unfold go
+  cases ts <;> simp [Iter.next, STAR, BACKSLASH, SLASH, lc42]
+  · generalize sliceFrom text text.length = x; cases x <;> rfl
+  · generalize sliceFrom text ti = x; cases x <;> rfl
+
+theorem dw_star_end {f : Flags} {n : Nat} {prev : Option UInt8} {t : Bytes} :
+    dowild f (n + 1) prev [42] t =
+      if f.pathname && (strchrSlash t).isSome then .noMatch else .matched := by
+  conv => lhs; unfold dowild
+  simp [hd, Spec.C36.fold, isUpper]
+
+theorem dw_star1 {f : Flags} {n : Nat} {prev : Option UInt8} {c : UInt8} {rest' t : Bytes}
+    (hc0 : c ≠ 0) (hc42 : c ≠ 42) :
+    dowild f (n + 1) prev (42 :: c :: rest') t =
+      if f.pathname && c == 47 then
+        (match strchrSlash t with
+          | none => .noMatch
+          | some s => dowild f n (some 47) rest' s.tail)
+      else Spec.C36.starLoop f (fun tx => dowild f n none (c :: rest') tx) (c :: rest') (!f.pathname)
+        (t.length + 1) (Spec.C36.fold f (hd t)) t := by
+  conv => lhs; unfold dowild
+  simp [hd, Spec.C36.fold, isUpper, hc0, hc42]
+  split
+  · generalize strchrSlash t = x; cases x <;> rfl
+  · rfl
+
+
+/-! Model side: one pass of the loop by what the scan does -/
+
+theorem starLoop_glob (m : Mode) (rec : Nat → Res) (ms : Bool) (pch tch : UInt8) (hg : isGlobCharacter pch = true)
+    (n tIdx : Nat) (t : Iter) :
+    C36.starLoop m rec pch ms (n + 1) tIdx tch t =
+      (let res := rec tIdx
+       if res != .noMatch && (!ms || res != .abortToStarStar) then res
+       else if res == .noMatch && !ms && tch == SLASH then .abortToStarStar
+       else match t.next m with
+         | none => .abortAll
+         | some ((i, c), t) => C36.starLoop m rec pch ms n i c t) := by
+  conv => lhs; unfold C36.starLoop
+  simp [hg]
+  generalize Iter.next m t = nx
+  cases nx <;> rfl
+
+theorem starLoop_stop_slash (m : Mode) (rec : Nat → Res) (pch : UInt8) (hg : isGlobCharacter pch = false)
+    (h47 : pch ≠ 47) (n tIdx : Nat) (t : Iter) :
+    C36.starLoop m rec pch false (n + 1) tIdx 47 t = .noMatch := by
+  unfold C36.starLoop
+  obtain ⟨i, rest⟩ := t
+  have : C36.scanLit m false pch tIdx 47 i rest = (tIdx, 47, ⟨i, rest⟩) := by
+    cases rest <;> simp [C36.scanLit, SLASH]
+  have h47' : ¬ (47 : UInt8) = pch := fun h => h47 h.symm
+  simp [hg, this, h47']
+
+theorem starLoop_end (m : Mode) (rec : Nat → Res) (ms : Bool) (pch tch : UInt8) (hg : isGlobCharacter pch = false)
+    (h : tch ≠ pch) (n tIdx i : Nat) :
+    C36.starLoop m rec pch ms (n + 1) tIdx tch ⟨i, []⟩ = .noMatch := by
+  unfold C36.starLoop
+  simp [hg, C36.scanLit, h]
+
+/-! Spec side -/
+
+theorem sl_zero (f : Flags) (rec : Bytes → Wm) (p : Bytes) (ms : Bool) (n : Nat) (text : Bytes) :
+    Spec.C36.starLoop f rec p ms (n + 1) 0 text = .abortAll := by
+  unfold Spec.C36.starLoop; simp
+
+theorem sl_pass (f : Flags) (rec : Bytes → Wm) (p : Bytes) (ms : Bool) (n : Nat) (tch tch' : UInt8) (text : Bytes)
+    (h0 : tch ≠ 0) (hscan : (isGlobSpecial (hd p) = true ∧ tch' = tch) ∨
+      (isGlobSpecial (hd p) = false ∧
+        Spec.C36.scanLit f ms (Spec.C36.fold f (hd p)) text = (tch', text) ∧ tch' = Spec.C36.fold f (hd p))) :
+    Spec.C36.starLoop f rec p ms (n + 1) tch text =
+      (let r := rec text
+       if r != .noMatch && (!ms || r != .abortToStarStar) then r
+       else if r == .noMatch && !ms && tch' == 47 then .abortToStarStar
+       else Spec.C36.starLoop f rec p ms n (hd text.tail) text.tail) := by
+  conv => lhs; unfold Spec.C36.starLoop
+  rcases hscan with ⟨hg, he⟩ | ⟨hg, hs, he⟩
+  · subst he; simp [h0, hg]
+  · subst he; simp [h0, hg, hs]
+
+theorem sl_skip (f : Flags) (rec : Bytes → Wm) (p : Bytes) (ms : Bool) (n : Nat) (tch tch' c0 : UInt8) (tr : Bytes)
+    (hg : isGlobSpecial (hd p) = false) (h0 : tch ≠ 0) (h0' : tch' ≠ 0) (hc0 : c0 ≠ 0)
+    (hslash : ¬ (ms = false ∧ c0 = 47)) (hne : Spec.C36.fold f c0 ≠ Spec.C36.fold f (hd p)) :
+    Spec.C36.starLoop f rec p ms (n + 1) tch (c0 :: tr) = Spec.C36.starLoop f rec p ms (n + 1) tch' tr := by
+  have hs : Spec.C36.scanLit f ms (Spec.C36.fold f (hd p)) (c0 :: tr) = Spec.C36.scanLit f ms (Spec.C36.fold f (hd p)) tr := by
+    conv => lhs; unfold Spec.C36.scanLit
+    have : (!ms && c0 == 47) = false := by
+      cases ms <;> simp_all
+    simp [hc0, this, hne]
+  unfold Spec.C36.starLoop
+  simp [h0, h0', hg, hs]
+
+theorem sl_stop_slash (f : Flags) (rec : Bytes → Wm) (p : Bytes) (n : Nat) (tch : UInt8) (tr : Bytes)
+    (hg : isGlobSpecial (hd p) = false) (h0 : tch ≠ 0) (h47 : Spec.C36.fold f (hd p) ≠ 47) :
+    Spec.C36.starLoop f rec p false (n + 1) tch (47 :: tr) = .noMatch := by
+  unfold Spec.C36.starLoop
+  have h47' : ¬ (47 : UInt8) = Spec.C36.fold f (hd p) := fun h => h47 h.symm
+  simp [h0, hg, Spec.C36.scanLit, h47']
+
+theorem sl_end (f : Flags) (rec : Bytes → Wm) (p : Bytes) (ms : Bool) (n : Nat) (tch c0 : UInt8)
+    (hg : isGlobSpecial (hd p) = false) (h0 : tch ≠ 0) (hc0 : c0 ≠ 0) (hp0 : Spec.C36.fold f (hd p) ≠ 0)
+    (hslash : ¬ (ms = false ∧ c0 = 47)) (hne : Spec.C36.fold f c0 ≠ Spec.C36.fold f (hd p)) :
+    Spec.C36.starLoop f rec p ms (n + 1) tch [c0] = .noMatch := by
+  unfold Spec.C36.starLoop
+  have : (!ms && c0 == 47) = false := by
+    cases ms <;> simp_all
+  have hp0' : ¬ (0 : UInt8) = Spec.C36.fold f (hd p) := fun h => hp0 h.symm
+  simp [h0, hg, Spec.C36.scanLit, hc0, this, hne, hp0']
+
+theorem scanLit_hit_spec (f : Flags) (ms : Bool) (c0 : UInt8) (tr : Bytes) (pch : UInt8)
+    (hc0 : c0 ≠ 0) (hslash : ¬ (ms = false ∧ c0 = 47)) (he : Spec.C36.fold f c0 = pch) :
+    Spec.C36.scanLit f ms pch (c0 :: tr) = (pch, c0 :: tr) := by
+  unfold Spec.C36.scanLit
+  have : (!ms && c0 == 47) = false := by
+    cases ms <;> simp_all
+  simp [hc0, this, he]
+
+theorem ofWm_ne_noMatch (w : Wm) : (ofWm w != .noMatch) = (w != .noMatch) := by cases w <;> rfl
+theorem ofWm_ne_abortSS (w : Wm) : (ofWm w != .abortToStarStar) = (w != .abortToStarStar) := by cases w <;> rfl
+theorem ofWm_eq_noMatch (w : Wm) : (ofWm w == .noMatch) = (w == .noMatch) := by cases w <;> rfl
+
+theorem isGlob_same (c : UInt8) : isGlobCharacter c = isGlobSpecial c := rfl
+
+
+theorem hd_cons (c : UInt8) (r : Bytes) : hd (c :: r) = c := rfl
+
+/-- Behind a star, with text left, both loops are in lock-step: the same scan, the same recursive
+calls, the same exits. -/
+theorem starLoop_rel (m : Mode) (recM : Nat → Res) (recS : Bytes → Wm) (p : Bytes) (ms : Bool)
+    (hp0 : hd p ≠ 0) (hnsl : ¬ (ms = false ∧ lc m (hd p) = 47)) :
+    ∀ (tx : Bytes), (∀ c ∈ tx, c ≠ 0) → tx ≠ [] → ∀ (k n_m n_s : Nat) (tchS : UInt8),
+      tx.length ≤ n_m → tx.length + 1 ≤ n_s →
+      (tchS = hd tx ∨ tchS = Spec.C36.fold (flagsOf m) (hd tx)) →
+      (∀ j, j < tx.length → recM (k + j) = ofWm (recS (tx.drop j))) →
+      C36.starLoop m recM (lc m (hd p)) ms n_m k (lc m (hd tx)) ⟨k + 1, tx.tail⟩ =
+        ofWm (Spec.C36.starLoop (flagsOf m) recS p ms n_s tchS tx) := by
+  intro tx
+  induction tx with
+  | nil => intro _ h; exact absurd rfl h
+  | cons c0 tr ih =>
+    intro hnn _ k n_m n_s tchS hnm hns htch hrec
+    have hc0 : c0 ≠ 0 := hnn c0 (by simp)
+    have hlc0 : lc m c0 ≠ 0 := fun h => hc0 ((lc_special m c0).2.2.2.2.2.1.mp h)
+    have h47 : lc m c0 = 47 ↔ c0 = 47 := (lc_special m c0).2.2.2.2.1
+    simp only [hd_cons] at htch
+    have htch0 : tchS ≠ 0 := by
+      rcases htch with h | h
+      · rw [h]; exact hc0
+      · rw [h, fold_eq_lc]; exact hlc0
+    have hpch0 : lc m (hd p) ≠ 0 := fun h => hp0 ((lc_special m (hd p)).2.2.2.2.2.1.mp h)
+    obtain ⟨nm, hnm'⟩ : ∃ nm, n_m = nm + 1 := ⟨n_m - 1, by simp at hnm; omega⟩
+    obtain ⟨ns, hns'⟩ : ∃ ns, n_s = ns + 1 := ⟨n_s - 1, by simp at hns; omega⟩
+    subst hnm' hns'
+    simp only [hd_cons, List.tail_cons]
+    have hrec0 : recM k = ofWm (recS (c0 :: tr)) := by simpa using hrec 0 (by simp)
+    have htch47 : (tchS == 47) = (lc m c0 == 47) := by
+      rw [Bool.eq_iff_iff]
+      rcases htch with h | h
+      · simp [h, h47]
+      · rw [h, fold_eq_lc]
+    -- what happens after this position was tried and did not decide
+    have hnext : (match Iter.next m ⟨k + 1, tr⟩ with
+          | none => Res.abortAll
+          | some ((i, c), t) => C36.starLoop m recM (lc m (hd p)) ms nm i c t) =
+        ofWm (Spec.C36.starLoop (flagsOf m) recS p ms ns (hd tr) tr) := by
+      cases tr with
+      | nil =>
+        obtain ⟨ns', e⟩ : ∃ ns', ns = ns' + 1 := ⟨ns - 1, by simp at hns; omega⟩
+        subst e
+        simp [Iter.next, hd, sl_zero, ofWm]
+      | cons c1 tr' =>
+        have := ih (fun x hx => hnn x (by simp [hx])) (by simp) (k + 1) nm ns c1
+          (by simp at hnm ⊢; omega) (by simp at hns ⊢; omega) (Or.inl (by simp [hd_cons]))
+          (by
+            intro j hj
+            have := hrec (j + 1) (by simp at hj ⊢; omega)
+            simpa [Nat.add_assoc, Nat.add_comm 1 j] using this)
+        simpa [Iter.next, hd_cons] using this
+    -- one pass at a position where the scan stands still
+    have hpass : ∀ (tchM tchS' : UInt8), (tchM == SLASH) = (tchS' == 47) →
+        (let res := recM k
+         if res != .noMatch && (!ms || res != .abortToStarStar) then res
+         else if res == .noMatch && !ms && tchM == SLASH then .abortToStarStar
+         else match Iter.next m ⟨k + 1, tr⟩ with
+           | none => .abortAll
+           | some ((i, c), t) => C36.starLoop m recM (lc m (hd p)) ms nm i c t) =
+        ofWm (let r := recS (c0 :: tr)
+         if r != .noMatch && (!ms || r != .abortToStarStar) then r
+         else if r == .noMatch && !ms && tchS' == 47 then .abortToStarStar
+         else Spec.C36.starLoop (flagsOf m) recS p ms ns (hd tr) tr) := by
+      intro tchM tchS' hsl
+      simp only [hrec0, ofWm_ne_noMatch, ofWm_ne_abortSS, ofWm_eq_noMatch, hsl, hnext]
+      split
+      · rfl
+      · split <;> rfl
+    by_cases hg : isGlobCharacter (lc m (hd p)) = true
+    · -- no scan
+      have hgS : isGlobSpecial (hd p) = true := by rw [← isGlob_same, ← lc_glob m]; exact hg
+      rw [starLoop_glob m recM ms _ _ hg, sl_pass _ _ _ _ _ tchS tchS _ htch0 (Or.inl ⟨hgS, rfl⟩)]
+      exact hpass (lc m c0) tchS (by simp [SLASH, htch47])
+    · simp only [Bool.not_eq_true] at hg
+      have hgS : isGlobSpecial (hd p) = false := by rw [← isGlob_same, ← lc_glob m]; exact hg
+      by_cases hstop : ms = false ∧ c0 = 47
+      · obtain ⟨hms, hc47⟩ := hstop
+        subst hms hc47
+        have hl47 : lc m 47 = 47 := (lc_special m 47).2.2.2.2.1.mpr rfl
+        rw [hl47]
+        by_cases heq : lc m (hd p) = 47
+        · exact absurd ⟨rfl, heq⟩ hnsl
+        · rw [starLoop_stop_slash m recM _ hg heq, sl_stop_slash _ _ _ _ _ _ hgS htch0 (by rw [fold_eq_lc]; exact heq)]
+          rfl
+      · by_cases heq : lc m c0 = lc m (hd p)
+        · rw [heq, starLoop_hit m recM ms _ hg,
+            sl_pass _ _ _ _ _ tchS (Spec.C36.fold (flagsOf m) (hd p)) _ htch0
+              (Or.inr ⟨hgS, scanLit_hit_spec _ _ _ _ _ hc0 hstop (by rw [fold_eq_lc, fold_eq_lc, heq]), rfl⟩)]
+          exact hpass _ _ (by rw [fold_eq_lc]; rfl)
+        · have hnes : Spec.C36.fold (flagsOf m) c0 ≠ Spec.C36.fold (flagsOf m) (hd p) := by
+            rw [fold_eq_lc, fold_eq_lc]; exact heq
+          have hstopM : ¬ (ms = false ∧ lc m c0 = 47) := fun h => hstop ⟨h.1, h47.mp h.2⟩
+          cases tr with
+          | nil =>
+            rw [starLoop_end m recM ms _ _ hg heq,
+              sl_end _ _ _ _ _ _ _ hgS htch0 hc0 (by rw [fold_eq_lc]; exact hpch0) hstop hnes]
+            rfl
+          | cons c1 tr' =>
+            have hc1 : c1 ≠ 0 := hnn c1 (by simp)
+            rw [starLoop_skip m recM ms _ _ hg nm k (k + 1) c1 tr' hstopM heq,
+              sl_skip _ _ _ _ _ tchS c1 _ _ hgS htch0 hc1 hc0 hstop hnes]
+            have := ih (fun x hx => hnn x (by simp [hx])) (by simp) (k + 1) (nm + 1) (ns + 1) c1
+              (by simp at hnm ⊢; omega) (by simp at hns ⊢; omega) (Or.inl (by simp [hd_cons]))
+              (by
+                intro j hj
+                have := hrec (j + 1) (by simp at hj ⊢; omega)
+                simpa [Nat.add_assoc, Nat.add_comm 1 j] using this)
+            simpa [hd_cons] using this
+
+
+
+theorem dropWhile_length_le (p : UInt8 → Bool) (l : Bytes) : (l.dropWhile p).length ≤ l.length := by
+  induction l with
+  | nil => simp
+  | cons a r ih => simp only [List.dropWhile_cons]; split <;> simp <;> omega
+
+theorem spec_bracketStep_len (f : Flags) (tch pch : UInt8) (rest : Bytes) (prev : UInt8) (matched : Bool)
+    (pch' : UInt8) (rest' : Bytes) (m' : Bool)
+    (h : Spec.C36.bracketStep f tch pch rest prev matched = some (pch', rest', m')) :
+    rest'.length ≤ rest.length := by
+  unfold Spec.C36.bracketStep at h
+  have hdw := dropWhile_length_le (fun c => c != 0 && c != 93) rest.tail
+  have ht : rest.tail.length ≤ rest.length := by simp
+  have htt : rest.tail.tail.length ≤ rest.length := by simp; omega
+  by_cases h92 : (pch == 92) = true
+  · simp only [h92, if_true] at h
+    by_cases hz : (hd rest == 0) = true
+    · simp [hz] at h
+    · simp only [hz, Bool.false_eq_true, if_false, Option.some.injEq, Prod.mk.injEq] at h
+      rw [← h.2.1]; exact ht
+  · simp only [h92, Bool.false_eq_true, if_false] at h
+    by_cases hr : (pch == 45 && prev != 0 && hd rest != 0 && hd rest != 93) = true
+    · simp only [hr, if_true] at h
+      by_cases he : (hd rest == 92) = true
+      · simp only [he, if_true] at h
+        by_cases hz : (hd rest.tail == 0) = true
+        · simp [hz] at h
+        · simp only [hz, Bool.false_eq_true, if_false, Option.some.injEq, Prod.mk.injEq] at h
+          rw [← h.2.1]; exact htt
+      · simp only [he, Bool.false_eq_true, if_false, Option.some.injEq, Prod.mk.injEq] at h
+        rw [← h.2.1]; exact ht
+    · simp only [hr, Bool.false_eq_true, if_false] at h
+      by_cases hc : (pch == 91 && hd rest == 58) = true
+      · simp only [hc, if_true] at h
+        by_cases hz : (hd (List.dropWhile (fun c => c != 0 && c != 93) rest.tail) == 0) = true
+        · simp [hz] at h
+        · simp only [hz, Bool.false_eq_true, if_false] at h
+          split at h
+          · simp only [Option.some.injEq, Prod.mk.injEq] at h
+            rw [← h.2.1]; exact Nat.le_refl _
+          · split at h
+            · cases h
+            · simp only [Option.some.injEq, Prod.mk.injEq] at h
+              rw [← h.2.1]
+              simp at hdw ⊢; omega
+      · simp only [hc, Bool.false_eq_true, if_false, Option.some.injEq, Prod.mk.injEq] at h
+        rw [← h.2.1]; exact Nat.le_refl _
+
+theorem spec_bracketLoop_len (f : Flags) (tch : UInt8) :
+    ∀ (n : Nat) (pch : UInt8) (rest : Bytes) (prev : UInt8) (matched b : Bool) (r : Bytes),
+      Spec.C36.bracketLoop f tch n pch rest prev matched = .done b r → r.length < rest.length := by
+  intro n
+  induction n with
+  | zero =>
+    intro pch rest prev matched b r h
+    unfold Spec.C36.bracketLoop at h
+    split at h <;> simp at h
+  | succ n ih =>
+    intro pch rest prev matched b r h
+    unfold Spec.C36.bracketLoop at h
+    split at h
+    · cases h
+    · simp only at h
+      split at h
+      · cases h
+      · rename_i pch' rest' m' hs
+        have hl := spec_bracketStep_len f tch pch rest prev matched pch' rest' m' hs
+        split at h
+        · rename_i h93
+          simp at h
+          rw [← h.2]
+          cases rest' with
+          | nil => simp [hd] at h93
+          | cons a b => simp at hl ⊢; omega
+        · have := ih _ _ _ _ _ _ h
+          cases rest' with
+          | nil => simp at this
+          | cons a b => simp at this hl ⊢; omega
+
+theorem spec_bracket_len (f : Flags) (tch : UInt8) (fuel : Nat) (rest : Bytes) (b : Bool) (r : Bytes)
+    (h : Spec.C36.bracket f tch fuel rest = .done b r) : r.length < rest.length := by
+  unfold Spec.C36.bracket at h
+  have ht : rest.tail.length ≤ rest.length := by simp
+  have htt : rest.tail.tail.length ≤ rest.length := by simp; omega
+  by_cases hneg : ((if (hd rest == 94) = true then (33 : UInt8) else hd rest) == 33) = true
+  · simp only [hneg, if_true] at h
+    split at h
+    · rename_i m r' hl
+      injection h with h1 h2
+      rw [← h2]
+      have := spec_bracketLoop_len f tch _ _ _ _ _ _ _ hl
+      omega
+    · rename_i hne; exact absurd h (by intro e; exact hne _ _ e)
+  · simp only [hneg, Bool.false_eq_true, if_false] at h
+    split at h
+    · rename_i m r' hl
+      injection h with h1 h2
+      rw [← h2]
+      have := spec_bracketLoop_len f tch _ _ _ _ _ _ _ hl
+      omega
+    · rename_i hne; exact absurd h (by intro e; exact hne _ _ e)
+
+
+def count42 (l : Bytes) : Nat := (l.filter (· == 42)).length
+
+theorem count42_drop (l : Bytes) (i : Nat) : count42 (l.drop i) ≤ count42 l := by
+  unfold count42
+  exact ((List.drop_sublist i l).filter _).length_le
+
+theorem count42_zero {l : Bytes} (h : count42 l = 0) : ∀ c ∈ l, c ≠ 42 := by
+  intro c hc e
+  subst e
+  unfold count42 at h
+  have : (42 : UInt8) ∈ l.filter (· == 42) := by simp [hc]
+  rw [List.length_eq_zero_iff] at h
+  rw [h] at this
+  cases this
+
+theorem count42_cons42 (r : Bytes) : count42 (42 :: r) = count42 r + 1 := by
+  simp [count42]
+
+theorem findSlash_none {l : Bytes} (h : findSlash l = none) : strchrSlash l = none := by
+  induction l with
+  | nil => rfl
+  | cons a r ih =>
+    by_cases ha : a = 47
+    · simp [findSlash, SLASH, ha] at h
+    · simp only [findSlash, SLASH, beq_iff_eq, ha, if_false, Option.map_eq_none_iff] at h
+      simp [strchrSlash, ha, ih h]
+
+theorem findSlash_some {l : Bytes} {d : Nat} (h : findSlash l = some d) :
+    strchrSlash l = some (l.drop d) ∧ d < l.length := by
+  induction l generalizing d with
+  | nil => simp [findSlash] at h
+  | cons a r ih =>
+    by_cases ha : a = 47
+    · simp [findSlash, SLASH, ha] at h
+      subst h
+      simp [strchrSlash, ha]
+    · simp only [findSlash, SLASH, beq_iff_eq, ha, if_false, Option.map_eq_some_iff] at h
+      obtain ⟨d', hd', e⟩ := h
+      subst e
+      obtain ⟨h1, h2⟩ := ih hd'
+      simp [strchrSlash, ha, h1]
+      omega
+
+theorem contains47_iff (l : Bytes) : l.contains 47 = (strchrSlash l).isSome := by
+  induction l with
+  | nil => rfl
+  | cons a r ih =>
+    by_cases ha : a = 47
+    · simp [strchrSlash, ha]
+    · simp [strchrSlash, ha, ← ih]
+      intro h; exact absurd h.symm ha
+
+/-- the two results are the same, or gitoxide's NoMatch stands for git's ABORT_ALL -/
+def RelNA (a : Res) (b : Wm) : Prop := a = ofWm b ∨ (a = .noMatch ∧ b = .abortAll)
+
+theorem RelNA.refl (b : Wm) : RelNA (ofWm b) b := Or.inl rfl
+
+theorem patOk_drop {m : Mode} {pattern : Bytes} (h : PatOk m pattern) (k : Nat) : PatOk m (pattern.drop k) :=
+  ⟨fun c hc => h.noNul c (List.mem_of_mem_drop hc),
+   fun hic => ⟨fun c hc => (h.icase hic).1 c (List.mem_of_mem_drop hc), escSafe_drop pattern (h.icase hic).2 k⟩⟩
+
+
+theorem drop_add_eq {l : Bytes} {a : Nat} {r : Bytes} (h : l.drop a = r) (j : Nat) : l.drop (a + j) = r.drop j := by
+  rw [← h, List.drop_drop]
+
+/-- the recursive call behind the star is on a star-free pattern: T1 applies to it -/
+theorem recCall_starfree (m : Mode) (fuel d : Nat) (pattern text : Bytes) (hok : PatOk m pattern)
+    (htext : ∀ c ∈ text, c ≠ 0) (hd : d ≠ 0) (pIdx k : Nat) (hp : pIdx ≤ pattern.length) (hk : k ≤ text.length)
+    (hsf : ∀ c ∈ pattern.drop pIdx, c ≠ 42) :
+    recCall m fuel d pattern text pIdx k =
+      ofWm (dowild (flagsOf m) fuel none (pattern.drop pIdx) (text.drop k)) := by
+  unfold recCall sliceFrom
+  simp only [hp, hk, if_true]
+  have hd' : (d == 0) = false := by simpa using hd
+  simp only [hd', Bool.false_eq_true, if_false, Iter.ofSlice]
+  exact go_eq_dowild_starfree m (d - 1) (pattern.drop pIdx) (text.drop k) (patOk_drop hok pIdx) hsf fuel
+    (pattern.drop pIdx) (text.drop k) 0 0 none (by simp) (fun c hc => htext c (List.mem_of_mem_drop hc))
+
+theorem lt_of_drop_cons {l : Bytes} {k : Nat} {a : UInt8} {b : Bytes} (h : l.drop k = a :: b) : k < l.length := by
+  apply Nat.lt_of_not_le
+  intro hle
+  rw [List.drop_eq_nil_of_le hle] at h
+  cases h
+
+theorem relNA_if {cM : Prop} [Decidable cM] {cS : Prop} [Decidable cS] (hc : cM ↔ cS) {a : Res} {b : Wm}
+    (h : RelNA a b) : RelNA (if cM then Res.noMatch else a) (if cS then Wm.noMatch else b) := by
+  by_cases h1 : cM
+  · have h2 : cS := hc.mp h1
+    simp [h1, h2, RelNA, ofWm]
+  · have h2 : ¬ cS := fun x => h1 (hc.mpr x)
+    simp [h1, h2, h]
+
+/-- T2: at most one `*` in the pattern -/
+theorem go_rel_onestar (m : Mode) (d : Nat) (pattern text : Bytes) (hok : PatOk m pattern)
+    (hone : count42 pattern ≤ 1) (hdne : d ≠ 0) (htext : ∀ c ∈ text, c ≠ 0) :
+    ∀ (fuel : Nat) (ps ts : Bytes) (i ti : Nat) (prev : Option UInt8),
+      pattern.drop i = ps → text.drop ti = ts → ps.length ≤ fuel →
+      RelNA (go m fuel d pattern text ⟨i, ps⟩ ⟨ti, ts⟩) (dowild (flagsOf m) fuel prev ps ts) := by
+  intro fuel
+  induction fuel with
+  | zero => intros; left; simp [go, dowild, ofWm]
+  | succ n ih =>
+    intro ps ts i ti prev hinv htinv hfuel
+    have htnn : ∀ c ∈ ts, c ≠ 0 := fun c hc => htext c (List.mem_of_mem_drop (htinv ▸ hc))
+    cases ps with
+    | nil =>
+      left
+      rw [go_nil, dw_nil (by intro h; exact (htnn 0 h) rfl)]
+      cases ts <;> simp [ofWm]
+    | cons c r =>
+      have hmem : ∀ x ∈ c :: r, x ∈ pattern := fun x hx => List.mem_of_mem_drop (hinv ▸ hx)
+      have hc0 : c ≠ 0 := hok.noNul c (hmem c (by simp))
+      have hr := drop_succ_of_drop hinv
+      have hrl : r.length ≤ n := by simp at hfuel; omega
+      obtain ⟨s42, s92, s63, s91, s47, s0, s93⟩ := lc_special m c
+      by_cases h42 : c = 42
+      · -- the star
+        subst h42
+        have hcnt : count42 r = 0 := by
+          have h1 := count42_drop pattern i
+          rw [hinv, count42_cons42] at h1
+          omega
+        have hrsf : ∀ x ∈ r, x ≠ 42 := count42_zero hcnt
+        have hilen : i + 1 ≤ pattern.length := lt_of_drop_cons hinv
+        cases r with
+        | nil =>
+          -- trailing star
+          left
+          rw [go_star_end', dw_star_end]
+          have hs : sliceFrom text (if ts.isEmpty then text.length else ti) = some ts := by
+            unfold sliceFrom
+            cases ts with
+            | nil => simp
+            | cons a b =>
+              have := lt_of_drop_cons htinv
+              simp [Nat.le_of_lt this, htinv]
+          rw [hs]
+          simp only [contains47_iff, flagsOf_pathname]
+          by_cases hcnd : (m.noMatchSlash && (strchrSlash ts).isSome) = true
+          · simp [hcnd, ofWm]
+          · simp [hcnd, ofWm]
+        | cons c1 r' =>
+          have hc1_42 : c1 ≠ 42 := hrsf c1 (by simp)
+          have hc1_0 : c1 ≠ 0 := hok.noNul c1 (hmem c1 (by simp))
+          have hl42 : lc m c1 ≠ 42 := fun h => hc1_42 ((lc_special m c1).1.mp h)
+          have h47 : lc m c1 = 47 ↔ c1 = 47 := (lc_special m c1).2.2.2.2.1
+          have hr2 := drop_succ_of_drop hr
+          rw [dw_star1 hc1_0 hc1_42]
+          by_cases hns : m.noMatchSlash = true ∧ lc m c1 = 47
+          · -- `*` then `/` in path mode: jump to the next slash
+            have hcS : ((flagsOf m).pathname && c1 == 47) = true := by
+              simp [hns.1, h47.mp hns.2]
+            simp only [hcS, if_true]
+            cases ts with
+            | nil =>
+              left
+              rw [go_star1_slash_nil hns]
+              simp [strchrSlash, ofWm]
+            | cons tc tr =>
+              have hti := lt_of_drop_cons htinv
+              rw [go_star1_slash hns]
+              have hsl : sliceFrom text ti = some (tc :: tr) := by
+                unfold sliceFrom; simp [Nat.le_of_lt hti, htinv]
+              rw [hsl]
+              simp only []
+              cases hf : findSlash (tc :: tr) with
+              | none => left; simp [findSlash_none hf, ofWm]
+              | some dist =>
+                obtain ⟨h1, h2⟩ := findSlash_some hf
+                rw [h1]
+                simp only []
+                have hd' : dist ≤ tr.length := by simp at h2; omega
+                have hadv : (Iter.mk (ti + 1) tr).advance dist = ⟨ti + 1 + dist, tr.drop dist⟩ := by
+                  simp [Iter.advance, Nat.min_eq_left hd']
+                rw [hadv]
+                have htail : (List.drop dist (tc :: tr)).tail = tr.drop dist := by
+                  rw [List.tail_drop]; simp
+                rw [htail]
+                exact ih r' (tr.drop dist) (i + 2) (ti + 1 + dist) (some 47) hr2
+                  (by
+                    have := drop_add_eq htinv (1 + dist)
+                    rw [← Nat.add_assoc] at this
+                    rw [this]; simp [Nat.add_comm 1 dist])
+                  (by simp at hrl ⊢; omega)
+          · -- the loop behind the star
+            have hcS : ((flagsOf m).pathname && c1 == 47) = false := by
+              cases hp : m.noMatchSlash with
+              | false => simp [hp]
+              | true =>
+                have : ¬ c1 = 47 := fun e => hns ⟨hp, h47.mpr e⟩
+                simp [hp, this]
+            simp only [hcS, Bool.false_eq_true, if_false]
+            have hrecM : ∀ k, k ≤ text.length →
+                recCall m n d pattern text (i + 1) k =
+                  ofWm (dowild (flagsOf m) n none (c1 :: r') (text.drop k)) := by
+              intro k hk
+              have := recCall_starfree m n d pattern text hok htext hdne (i + 1) k hilen hk (by rw [hr]; exact hrsf)
+              rw [hr] at this
+              exact this
+            cases ts with
+            | nil =>
+              -- text exhausted on entry: git aborts, gitoxide says NoMatch (or aborts one level down)
+              rw [go_star1_nil hl42 hns]
+              simp only [hd, List.headD_nil]
+              have hf0 : Spec.C36.fold (flagsOf m) 0 = 0 := by rw [fold_eq_lc]; exact (lc_special m 0).2.2.2.2.2.1.mpr rfl
+              rw [hf0, List.length_nil, sl_zero]
+              by_cases hg : isGlobCharacter (lc m c1) = true
+              · rw [starLoop_glob m _ _ _ _ hg, hrecM text.length (Nat.le_refl _)]
+                simp only [List.drop_length]
+                -- the recursive call on the empty text aborts (n > 0 because two pattern bytes are left)
+                obtain ⟨n', e⟩ : ∃ n', n = n' + 1 := ⟨n - 1, by simp at hrl; omega⟩
+                subst e
+                rw [dw_abort hc1_0 hc1_42]
+                left; simp [ofWm]
+              · simp only [Bool.not_eq_true] at hg
+                have hne : (0 : UInt8) ≠ lc m c1 := fun h => hc1_0 ((lc_special m c1).2.2.2.2.2.1.mp h.symm)
+                rw [starLoop_end m _ _ _ _ hg hne]
+                right; exact ⟨rfl, rfl⟩
+            | cons tc tr =>
+              left
+              have hti := lt_of_drop_cons htinv
+              rw [go_star1 hl42 hns]
+              have := starLoop_rel m (fun k => recCall m n d pattern text (i + 1) k)
+                (fun tx => dowild (flagsOf m) n none (c1 :: r') tx) (c1 :: r') (!m.noMatchSlash)
+                (by simpa [hd] using hc1_0)
+                (by
+                  intro ⟨h1, h2⟩
+                  apply hns
+                  refine ⟨by simpa using h1, by simpa [hd] using h2⟩)
+                (tc :: tr) htnn (by simp) ti (tr.length + 1) ((tc :: tr).length + 1)
+                (Spec.C36.fold (flagsOf m) (hd (tc :: tr)))
+                (by simp) (by simp) (Or.inr rfl)
+                (by
+                  intro j hj
+                  have hlen : text.length - ti = tr.length + 1 := by
+                    have := congrArg List.length htinv
+                    simpa using this
+                  rw [hrecM (ti + j) (by simp at hj; omega), drop_add_eq htinv j])
+              simpa [hd, flagsOf_pathname] using this
+      · -- everything else: as in the star-free proof, but the results are related, not equal
+        have hc42 : c ≠ 42 := h42
+        cases ts with
+        | nil =>
+          left
+          rw [go_abort (by rw [Ne, s42]; exact hc42), dw_abort hc0 hc42]
+          rfl
+        | cons tc tr =>
+          have htc : tc ≠ 0 := htnn tc (by simp)
+          have htr := drop_succ_of_drop htinv
+          have htc' : lc m tc ≠ 0 := fun h => htc ((lc_special m tc).2.2.2.2.2.1.mp h)
+          by_cases h92 : c = 92
+          · subst h92
+            cases r with
+            | nil =>
+              left
+              rw [go_esc_end (by rw [s92]), dw_esc hc0 htc (by rw [fold_eq_lc, s92])]
+              simp [hd, fold_eq_lc, ofWm, htc']
+            | cons e r2 =>
+              rw [go_esc (by rw [s92]), dw_esc hc0 htc (by rw [fold_eq_lc, s92])]
+              have hle : lc m e = e := by
+                cases hic : m.ignoreCase with
+                | false => simp [lc, hic]
+                | true =>
+                  have := escSafe_drop pattern (hok.icase hic).2 i
+                  rw [hinv] at this
+                  simp [escSafe] at this
+                  exact lc_of_not_upper m e (by simpa using this.1)
+              simp only [hd, List.headD_cons, List.tail_cons, fold_eq_lc, hle]
+              have hr2 := drop_succ_of_drop hr
+              have := ih r2 tr (i + 2) (ti + 1) (some e) hr2 htr (by simp at hrl ⊢; omega)
+              exact relNA_if (by constructor <;> (intro h; exact fun x => h x.symm)) this
+          · by_cases h63 : c = 63
+            · subst h63
+              rw [go_qm (by rw [s63]), dw_qm hc0 htc (by rw [fold_eq_lc, s63])]
+              have := ih r tr (i + 1) (ti + 1) (some 63) hr htr hrl
+              simp only [fold_eq_lc, flagsOf_pathname]
+              exact relNA_if (by simp) this
+            · by_cases h91 : c = 91
+              · subst h91
+                have hic : m.ignoreCase = false := by
+                  cases h : m.ignoreCase with
+                  | false => rfl
+                  | true => exact absurd rfl ((hok.icase h).1 91 (hmem 91 (by simp)))
+                rw [go_br (by rw [s91]), dw_br hc0 htc (by rw [fold_eq_lc, s91])]
+                have hb := bracket_rel m hic pattern hok.noNul (lc m tc) n (i + 1) r hr
+                simp only [fold_eq_lc, flagsOf_pathname]
+                cases hbs : Spec.C36.bracket (flagsOf m) (lc m tc) n r with
+                | abort =>
+                  rw [hbs] at hb
+                  cases hbm : C36.bracket m pattern (lc m tc) n ⟨i + 1, r⟩ <;> rw [hbm] at hb <;> simp [BrRel] at hb
+                  left; rfl
+                | fuel =>
+                  rw [hbs] at hb
+                  cases hbm : C36.bracket m pattern (lc m tc) n ⟨i + 1, r⟩ <;> rw [hbm] at hb <;> simp [BrRel] at hb
+                  left; rfl
+                | done ok' rest =>
+                  rw [hbs] at hb
+                  have hlen := spec_bracket_len _ _ _ _ _ _ hbs
+                  cases hbm : C36.bracket m pattern (lc m tc) n ⟨i + 1, r⟩ with
+                  | abort => rw [hbm] at hb; simp [BrRel] at hb
+                  | panic => rw [hbm] at hb; simp [BrRel] at hb
+                  | fuel => rw [hbm] at hb; simp [BrRel] at hb
+                  | done ok p =>
+                    rw [hbm] at hb
+                    obtain ⟨h1, h2, h3⟩ := hb
+                    obtain ⟨k, pr⟩ := p
+                    simp at h2 h3
+                    subst h1 h2
+                    simp only []
+                    have := ih pr tr k (ti + 1) (some 93) h3 htr (by omega)
+                    exact relNA_if (by simp) this
+              · rw [go_lit (by rw [Ne, s42]; exact hc42) (by rw [Ne, s92]; exact h92)
+                    (by rw [Ne, s63]; exact h63) (by rw [Ne, s91]; exact h91),
+                  dw_lit hc0 htc (by rw [fold_eq_lc, Ne, s42]; exact hc42) (by rw [fold_eq_lc, Ne, s92]; exact h92)
+                    (by rw [fold_eq_lc, Ne, s63]; exact h63) (by rw [fold_eq_lc, Ne, s91]; exact h91)]
+                have := ih r tr (i + 1) (ti + 1) (some c) hr htr hrl
+                simp only [fold_eq_lc]
+                exact relNA_if (by constructor <;> (intro h; exact fun x => h x.symm)) this
+
+
 end GixModel.C36
